@@ -72,10 +72,7 @@ def gen(rng, tier):
     # the whole-tree generator of C05, with wrong-length packets
     for _ in range(8 if tier == "quick" else 200):
         doc = defgen.rnd_definition(rng)
-        try:
-            dobj = docs.definition_py(doc)
-        except Exception:  # noqa: BLE001
-            continue
+        dobj = defgen.try_build(doc)
         pkts = []
         for _j in range(3):
             pkts += defgen.fit_packet(dobj, defgen.rnd_packet(rng, rng.randrange(1, 30)))
